@@ -390,7 +390,9 @@ func Run(p *Property, o Options) int {
 	// theorems are discovered from the property's own Lean files (Props/Cxx.lean holds
 	// property theorems only); names listed explicitly in the registration are required.
 	p.Theorems = mergeNames(p.Theorems, discoverTheorems(p.PropsModule))
-	p.TieTheorems = mergeNames(p.TieTheorems, discoverTheorems(p.TieModule))
+	for _, tm := range tieModules(p) {
+		p.TieTheorems = mergeNames(p.TieTheorems, discoverTheorems(tm))
+	}
 	root := VerifRoot()
 	var broken []Broken
 	var notes []string
@@ -420,10 +422,10 @@ func Run(p *Property, o Options) int {
 		}
 	}
 	tieOK := true
-	if p.TieModule != "" {
-		if ok, out := LakeBuild(p.TieModule); !ok {
+	for _, tm := range tieModules(p) {
+		if ok, out := LakeBuild(tm); !ok {
 			tieOK = false
-			broken = append(broken, Broken{"tie: lake build " + p.TieModule + " (an extracted fact no longer matches the model)", errLines(out, 12)})
+			broken = append(broken, Broken{"tie: lake build " + tm + " (an extracted fact no longer matches the model)", errLines(out, 12)})
 		}
 	}
 	var mods []string
@@ -433,7 +435,7 @@ func Run(p *Property, o Options) int {
 		thms = append(thms, p.Theorems...)
 	}
 	if tieOK && p.TieModule != "" {
-		mods = append(mods, p.TieModule)
+		mods = append(mods, tieModules(p)...)
 		thms = append(thms, p.TieTheorems...)
 	}
 	axioms, checkerCmd, auditOut := Audit(mods, thms)
@@ -831,6 +833,17 @@ func mergeNames(a, b []string) []string {
 		if !seen[x] {
 			seen[x] = true
 			out = append(out, x)
+		}
+	}
+	return out
+}
+
+// tieModules: TieModule may list several modules separated by commas
+func tieModules(p *Property) []string {
+	var out []string
+	for _, m := range strings.Split(p.TieModule, ",") {
+		if m = strings.TrimSpace(m); m != "" {
+			out = append(out, m)
 		}
 	}
 	return out
